@@ -631,7 +631,7 @@ func genCase(rt *rapid.T) Case {
 
 var chk = pbt.Check[Case]{Name: "dct-kernels", Gen: genCase, Eval: eval}
 
-func init() { pbt.Register(chk) }
+func init() { pbt.Register(chk); pbt.CrashGuard = true }
 
 func impulse(n, at int, v float32) []uint32 {
 	b := make([]uint32, n)
